@@ -46,6 +46,7 @@ meta = {
     "results": {"build": build, "suite": suite, "demo_with_patch": dwith, "demo_without_patch": dwithout},
     "repo_commit": subprocess.run(["git", "-C", "/repo", "rev-parse", "--short", "HEAD"], capture_output=True, text=True).stdout.strip(),
     "detected_by_check": detected,
+    "missed_reason": spec.get("missed_reason"),
     "detecting_obligations": sorted(set(keys))[:8],
     "mutcheck_output": r.stdout.strip().splitlines()[:6],
 }
